@@ -5,12 +5,37 @@ Transcribed function by function.  `mem` is the storage (`[]` = `nullptr`,
 `mem.length` = `buffer_size_`), `r`/`w` are `read_index_`/`write_index_`.
 Every `memcpy`/`memmove` of the C++ is recorded as an `Access` so that
 "no operation reads or writes outside the buffer's own storage" is a statement
-about the access list.  Sizes are `Nat` (the `size_t` overflow of
-`(write_index_ + n) << 1` is outside the model; stated in DESIGN.md).
+about the access list.
+
+Width: every index/size expression of buffer.cpp is `size_t` arithmetic.  The fields are `Nat`
+(kept `< W = 2^64` by the invariant) and every `+`, `-`, `<<` of the C++ is `uadd`/`usub`/`ushl1`
+(reduction mod `W`), so a wrap-around of the code is a wrap-around of the model.
+
+Allocation: `operator new[]` is an oracle input of every operation (`Alloc`: requested size ↦
+does the request succeed); a failing request throws `std::bad_alloc` in the code, which the model
+reports as status `badAlloc`.  The definitions without suffix transcribe the code WITH the
+repairs patches/C07-01 (growth size that wraps is refused) and C07-02 (clone allocates before it
+releases); the `…AsFound` definitions transcribe the code as found and carry the counterexamples.
 -/
 namespace Tbox.C07
 
 abbrev Byte := UInt8
+
+/-- `SIZE_MAX + 1` (LP64: the harness is built for the platform the check runs on) -/
+def W : Nat := 18446744073709551616
+/-- `SIZE_MAX >> 1` -/
+def maxHalf : Nat := 9223372036854775807
+
+/-! `size_t` arithmetic on operands `< W` (every value the code holds is one).  Written with a
+comparison instead of `%` (`Proofs.lean`: `uadd_mod`, `usub_mod`, `ushl1_mod` show they ARE the
+reductions mod `2^64`), because the kernel evaluates `x % W` on open terms by unfolding a
+well-founded recursion. -/
+/-- `size_t` addition -/
+def uadd (a b : Nat) : Nat := if a + b < W then a + b else a + b - W
+/-- `size_t` subtraction -/
+def usub (a b : Nat) : Nat := if b ≤ a then a - b else a + W - b
+/-- `size_t` `x << 1` -/
+def ushl1 (a : Nat) : Nat := if a * 2 < W then a * 2 else a * 2 - W
 
 structure Buf where
   mem : List Byte := []
@@ -28,65 +53,105 @@ deriving Repr, DecidableEq
 def Access.ok (a : Access) : Prop := a.len = 0 ∨ a.off + a.len ≤ a.cap
 instance (a : Access) : Decidable a.ok := by unfold Access.ok; exact inferInstance
 
+/-- the allocator's answers for one operation: may a request of that many bytes succeed? -/
+abbrev Alloc := Nat → Bool
+
+/-- how an operation ended: `refused` = returned `false`/`0` without touching anything,
+`badAlloc` = `operator new[]` threw -/
+inductive Status where
+  | ok | refused | badAlloc
+deriving Repr, DecidableEq
+
+/-- result of a buffer-level operation -/
+structure Res where
+  buf  : Buf
+  st   : Status := .ok
+  acc  : List Access := []
+  news : Nat := 0          -- `new[]` requests made (successful or not)
+  dels : Nat := 0          -- `delete[]` calls made
+  ret  : Nat := 0
+deriving Repr
+
 namespace Buf
 
 def size (b : Buf) : Nat := b.mem.length
-def writable (b : Buf) : Nat := b.size - b.w
-def readableSize (b : Buf) : Nat := b.w - b.r
+/-- `writableSize()`: `buffer_size_ - write_index_` -/
+def writable (b : Buf) : Nat := usub b.size b.w
+/-- `readableSize()`: `write_index_ - read_index_` -/
+def readableSize (b : Buf) : Nat := usub b.w b.r
 /-- the readable window `[r, w)` -/
 def readable (b : Buf) : List Byte := (b.mem.drop b.r).take (b.w - b.r)
 
-/-- `Buffer::Buffer(size_t reverse_size)` -/
+/-- 1 if the buffer owns a block (`delete[]` will be called when it lets go of it) -/
+def owns (b : Buf) : Nat := if b.mem = [] then 0 else 1
+
+/-- `Buffer::Buffer(size_t reverse_size)` with a successful allocation -/
 def mk' (cap : Nat) : Buf := { mem := List.replicate cap 0, r := 0, w := 0 }
 
 /-- overwrite `mem[off .. off+d.length)` with `d` (a `memcpy`/`memmove` destination) -/
 def poke (mem : List Byte) (off : Nat) (d : List Byte) : List Byte :=
   mem.take off ++ d ++ mem.drop (off + d.length)
 
-/-- growth policy of the code: `(write_index_ + write_size) << 1` -/
-def growSize (w n : Nat) : Nat := (w + n) * 2
+/-- growth policy of the code: `(write_index_ + write_size) << 1`, in `size_t` -/
+def growSize (w n : Nat) : Nat := ushl1 (uadd w n)
 
-/-- `ensureWritableSize` (allocation failure is not modelled: `new` throws) -/
-def ensure (b : Buf) (n : Nat) : Buf × List Access :=
-  if n = 0 then (b, [])
-  else if b.writable ≥ n then (b, [])
-  else if b.writable + b.r ≥ n then
-    -- memmove(buffer_ptr_, buffer_ptr_ + read_index_, write_index_ - read_index_)
-    let d := b.readable
-    ({ mem := poke b.mem 0 d, r := 0, w := b.w - b.r },
-     [⟨b.size, b.r, b.w - b.r⟩, ⟨b.size, 0, b.w - b.r⟩])
-  else
-    let ns := growSize b.w n
-    let d := b.readable
+/-- the reallocation branch of `ensureWritableSize` (shared by the repaired and the as-found code) -/
+def regrow (al : Alloc) (b : Buf) (n : Nat) : Res :=
+  let ns := growSize b.w n
+  if al ns then
     -- memcpy(p_buff + read_index_, buffer_ptr_ + read_index_, write_index_ - read_index_)
-    ({ mem := poke (List.replicate ns 0) b.r d, r := b.r, w := b.w },
-     if b.mem = [] then [] else [⟨b.size, b.r, b.w - b.r⟩, ⟨ns, b.r, b.w - b.r⟩])
+    { buf := { mem := poke (List.replicate ns 0) b.r b.readable, r := b.r, w := b.w },
+      acc := if b.mem = [] then [] else [⟨b.size, b.r, usub b.w b.r⟩, ⟨ns, b.r, usub b.w b.r⟩],
+      news := 1, dels := b.owns }
+  else { buf := b, st := .badAlloc, news := 1 }
 
-/-- `hasWritten` (clamps at the end of the storage) -/
+/-- the compaction branch: `memmove(buffer_ptr_, buffer_ptr_ + read_index_, write_index_ - read_index_)` -/
+def compact (b : Buf) : Res :=
+  { buf := { mem := poke b.mem 0 b.readable, r := 0, w := usub b.w b.r },
+    acc := [⟨b.size, b.r, usub b.w b.r⟩, ⟨b.size, 0, usub b.w b.r⟩] }
+
+/-- `ensureWritableSize` (with patch C07-01) -/
+def ensure (al : Alloc) (b : Buf) (n : Nat) : Res :=
+  if n = 0 then { buf := b }
+  else if b.writable ≥ n then { buf := b }
+  else if uadd b.writable b.r ≥ n then b.compact
+  else if b.w > maxHalf ∨ n > maxHalf - b.w then { buf := b, st := .refused }
+  else b.regrow al n
+
+/-- `ensureWritableSize` as found: no overflow check in front of the reallocation -/
+def ensureAsFound (al : Alloc) (b : Buf) (n : Nat) : Res :=
+  if n = 0 then { buf := b }
+  else if b.writable ≥ n then { buf := b }
+  else if uadd b.writable b.r ≥ n then b.compact
+  else b.regrow al n
+
+/-- `hasWritten` (clamps at the end of the storage; compares without adding) -/
 def hasWritten (b : Buf) (n : Nat) : Buf :=
-  if b.w + n > b.size then { b with w := b.size } else { b with w := b.w + n }
+  if n > usub b.size b.w then { b with w := b.size } else { b with w := uadd b.w n }
 
 /-- the user's write into `[writableBegin, writableBegin + d.length)` after a reservation -/
 def userWrite (b : Buf) (d : List Byte) : Buf × List Access :=
   ({ b with mem := poke b.mem b.w d }, [⟨b.size, b.w, d.length⟩])
 
-/-- `append` -/
-def append (b : Buf) (d : List Byte) : Buf × List Access :=
-  let (b1, a1) := b.ensure d.length
-  let (b2, a2) := b1.userWrite d
-  (b2.hasWritten d.length, a1 ++ a2)
+/-- `append`: `if (ensureWritableSize(n)) { memcpy; hasWritten(n); return n; } return 0;` -/
+def append (al : Alloc) (b : Buf) (d : List Byte) : Res :=
+  let e := b.ensure al d.length
+  if e.st = .ok then
+    let (b2, a2) := e.buf.userWrite d
+    { e with buf := b2.hasWritten d.length, acc := e.acc ++ a2, ret := d.length }
+  else { e with buf := b, ret := 0 }
 
-/-- reserve `n`, write `d` (the caller guarantees `d.length ≤ n`), commit `d.length` -/
-def reserveWriteCommit (b : Buf) (n : Nat) (d : List Byte) : Buf × List Access :=
-  let (b1, a1) := b.ensure n
-  let (b2, a2) := b1.userWrite d
-  (b2.hasWritten d.length, a1 ++ a2)
+/-- reserve `n`; if that succeeded write `d` (the caller guarantees `d.length ≤ n`) and commit -/
+def reserveWriteCommit (al : Alloc) (b : Buf) (n : Nat) (d : List Byte) : Res :=
+  let e := b.ensure al n
+  if e.st = .ok then
+    let (b2, a2) := e.buf.userWrite d
+    { e with buf := b2.hasWritten d.length, acc := e.acc ++ a2 }
+  else { e with buf := b }
 
-/-- `hasRead` -/
+/-- `hasRead` (compares without adding) -/
 def hasRead (b : Buf) (n : Nat) : Buf :=
-  if b.r + n > b.w then { b with r := 0, w := 0 }
-  else if b.r + n = b.w then { b with r := 0, w := 0 }
-  else { b with r := b.r + n }
+  if n ≥ usub b.w b.r then { b with r := 0, w := 0 } else { b with r := uadd b.r n }
 
 /-- `hasReadAll` -/
 def hasReadAll (b : Buf) : Buf := { b with r := 0, w := 0 }
@@ -96,17 +161,61 @@ def fetch (b : Buf) (n : Nat) : Buf × List Byte × List Access :=
   let k := if n > b.readableSize then b.readableSize else n
   (b.hasRead k, b.readable.take k, [⟨b.size, b.r, k⟩])
 
-/-- `cloneFrom(other)` — the value the destination takes -/
-def cloneOf (o : Buf) : Buf × List Access :=
+/-- `dst.cloneFrom(o)` (with patch C07-02: allocate and copy, then release the old block) -/
+def cloneInto (al : Alloc) (dst o : Buf) : Res :=
   if o.readableSize > 0 then
-    ({ mem := o.readable, r := 0, w := o.readableSize },
-     [⟨o.size, o.r, o.readableSize⟩, ⟨o.readableSize, 0, o.readableSize⟩])
-  else ({ mem := [], r := 0, w := 0 }, [])
+    if al o.readableSize then
+      { buf := { mem := o.readable, r := 0, w := o.readableSize },
+        acc := [⟨o.size, o.r, o.readableSize⟩, ⟨o.readableSize, 0, o.readableSize⟩],
+        news := 1, dels := dst.owns }
+    else { buf := dst, st := .badAlloc, news := 1 }
+  else { buf := { mem := [], r := 0, w := 0 }, dels := dst.owns }
 
-/-- `shrink` = copy-construct a temporary from `*this`, swap -/
-def shrink (b : Buf) : Buf × List Access := cloneOf b
+/-- `cloneFrom` as found: the old block is released first; when the allocation throws the
+object keeps `buffer_size_`, `read_index_`, `write_index_` over a null storage -/
+def cloneIntoAsFound (al : Alloc) (dst o : Buf) : Res :=
+  if o.readableSize > 0 then
+    if al o.readableSize then
+      { buf := { mem := o.readable, r := 0, w := o.readableSize },
+        acc := [⟨o.size, o.r, o.readableSize⟩, ⟨o.readableSize, 0, o.readableSize⟩],
+        news := 1, dels := dst.owns }
+    else { buf := { mem := [], r := dst.r, w := dst.w }, st := .badAlloc, news := 1, dels := dst.owns }
+  else { buf := { mem := [], r := 0, w := 0 }, dels := dst.owns }
+
+/-- `shrink` = copy-construct a temporary from `*this`, swap, destroy the temporary -/
+def shrink (al : Alloc) (b : Buf) : Res := cloneInto al b b
 
 def empty : Buf := { mem := [], r := 0, w := 0 }
+
+/-- `Buffer(cap)` replacing the object `old` (the harness destroys `old` after the new one exists) -/
+def construct (al : Alloc) (old : Buf) (cap : Nat) : Res :=
+  if cap = 0 then { buf := empty, dels := old.owns }
+  else if al cap then { buf := mk' cap, news := 1, dels := old.owns }
+  else { buf := old, st := .badAlloc, news := 1 }
+
+/-! #### `append` whose source lies in the buffer's OWN storage -/
+
+/-- what can go wrong with a source pointer into the own storage -/
+inductive Hazard where
+  | none
+  | overlap      -- memcpy with overlapping source and destination
+  | dangling     -- the block the source pointed into was deleted by the reallocation
+deriving Repr, DecidableEq
+
+/-- `b.append(b.readableBegin() + off, k)`: `p_data` is the address `buffer_ptr_ + read_index_ + off`
+taken BEFORE the call; `ensureWritableSize(k)` may move the bytes under it (compaction) or delete
+the block (growth); the `memcpy` then reads whatever is at that address. -/
+def appendSelfRaw (al : Alloc) (b : Buf) (off k : Nat) : Res × Hazard :=
+  let src := uadd b.r off
+  let e := b.ensure al k
+  if e.st ≠ .ok then ({ e with buf := b }, .none)
+  else if e.news ≠ 0 then (e, .dangling)
+  else
+    let data := (e.buf.mem.drop src).take k
+    let dst := e.buf.w
+    let hz := if k ≠ 0 ∧ src < dst + k ∧ dst < src + k then Hazard.overlap else Hazard.none
+    let (b2, a2) := e.buf.userWrite data
+    ({ e with buf := b2.hasWritten k, acc := e.acc ++ [⟨e.buf.size, src, k⟩] ++ a2, ret := k }, hz)
 
 end Buf
 
@@ -114,7 +223,9 @@ end Buf
 
 inductive Op where
   | construct (i : Nat) (cap : Nat)           -- (re)construct slot i as Buffer(cap)
+  | defaultCtor (i : Nat)                     -- (re)construct slot i as Buffer()  (kInitialSize)
   | append (i : Nat) (d : List Byte)
+  | appendSelf (i : Nat) (off k : Nat)        -- ensure k; append(readableBegin()+off, k)  (if off+k ≤ readable)
   | reserve (i : Nat) (n : Nat)
   | rwc (i : Nat) (n : Nat) (d : List Byte)   -- ensure n; write d (|d| ≤ n); hasWritten |d|
   | over (i : Nat) (n : Nat)                  -- zero-fill writable region; hasWritten (max writable n): clamps
@@ -124,11 +235,14 @@ inductive Op where
   | shrink (i : Nat)
   | copyAssign (dst src : Nat)
   | moveAssign (dst src : Nat)
-  | copyCtor (dst src : Nat)                  -- destroy dst, construct it as Buffer(src)
-  | moveCtor (dst src : Nat)                  -- destroy dst, construct it as Buffer(std::move(src))
+  | copyCtor (dst src : Nat)                  -- construct Buffer(src), then destroy dst and put it there
+  | moveCtor (dst src : Nat)                  -- construct Buffer(std::move(src)), destroy dst, put it there
   | swap (i j : Nat)
   | reset (i : Nat)
 deriving Repr
+
+/-- `Buffer::kInitialSize` -/
+def kInitialSize : Nat := 256
 
 abbrev Store := List Buf
 
@@ -140,19 +254,39 @@ structure Out where
   fetched  : List Byte := []      -- bytes returned by fetch
   ret      : Nat := 0             -- numeric return value (append/fetch)
   accesses : List Access := []
+  st       : Status := .ok
+  news     : Nat := 0
+  dels     : Nat := 0
 deriving Repr
 
-def step (s : Store) : Op → Store × Out
-  | .construct i cap => (s.put i (Buf.mk' cap), {})
+def Out.ofRes (x : Res) : Out := { ret := x.ret, accesses := x.acc, st := x.st, news := x.news, dels := x.dels }
+
+def step (al : Alloc) (s : Store) : Op → Store × Out
+  | .construct i cap =>
+      let x := Buf.construct al (s.get i) cap
+      (s.put i x.buf, Out.ofRes x)
+  | .defaultCtor i =>
+      let x := Buf.construct al (s.get i) kInitialSize
+      (s.put i x.buf, Out.ofRes x)
   | .append i d =>
-      let (b, a) := (s.get i).append d
-      (s.put i b, { ret := d.length, accesses := a })
+      let x := (s.get i).append al d
+      (s.put i x.buf, Out.ofRes x)
+  | .appendSelf i off k =>
+      let b := s.get i
+      if off + k ≤ b.readableSize then
+        -- the caller reserves first, so that the append itself neither moves nor reallocates
+        let e := b.ensure al k
+        if e.st = .ok then
+          let x := (e.buf.appendSelfRaw al off k).1
+          (s.put i x.buf, { Out.ofRes x with accesses := e.acc ++ x.acc, news := e.news + x.news, dels := e.dels + x.dels })
+        else (s, Out.ofRes { e with buf := b })
+      else (s, {})
   | .reserve i n =>
-      let (b, a) := (s.get i).ensure n
-      (s.put i b, { ret := 1, accesses := a })
+      let x := (s.get i).ensure al n
+      (s.put i x.buf, { Out.ofRes x with ret := if x.st = .ok then 1 else 0 })
   | .rwc i n d =>
-      let (b, a) := (s.get i).reserveWriteCommit n d
-      (s.put i b, { accesses := a })
+      let x := (s.get i).reserveWriteCommit al n d
+      (s.put i x.buf, Out.ofRes x)
   | .over i n =>
       -- the caller zero-fills the whole writable region, then over-commits by n
       let b := s.get i
@@ -164,32 +298,32 @@ def step (s : Store) : Op → Store × Out
   | .consume i n => (s.put i ((s.get i).hasRead n), {})
   | .consumeAll i => (s.put i (s.get i).hasReadAll, {})
   | .shrink i =>
-      let (b, a) := (s.get i).shrink
-      (s.put i b, { accesses := a })
+      let x := (s.get i).shrink al
+      (s.put i x.buf, Out.ofRes x)
   | .copyAssign dst src =>
       if dst = src then (s, {}) else
-      let (b, a) := Buf.cloneOf (s.get src)
-      (s.put dst b, { accesses := a })
+      let x := Buf.cloneInto al (s.get dst) (s.get src)
+      (s.put dst x.buf, Out.ofRes x)
   | .moveAssign dst src =>
       if dst = src then (s, {}) else
       -- reset(); swap(other): dst takes src's representation, src the empty one
-      ((s.put dst (s.get src)).put src Buf.empty, {})
+      ((s.put dst (s.get src)).put src Buf.empty, { dels := (s.get dst).owns })
   | .copyCtor dst src =>
       if dst = src then (s, {}) else
-      let (b, a) := Buf.cloneOf (s.get src)
-      (s.put dst b, { accesses := a })
+      let x := Buf.cloneInto al (s.get dst) (s.get src)
+      (s.put dst x.buf, Out.ofRes x)
   | .moveCtor dst src =>
       if dst = src then (s, {}) else
-      ((s.put dst (s.get src)).put src Buf.empty, {})
+      ((s.put dst (s.get src)).put src Buf.empty, { dels := (s.get dst).owns })
   | .swap i j =>
       let bi := s.get i
       let bj := s.get j
       ((s.put i bj).put j bi, {})
-  | .reset i => (s.put i Buf.empty, {})
+  | .reset i => (s.put i Buf.empty, { dels := (s.get i).owns })
 
 /-- number of buffer slots used by the harness -/
 def nSlots : Nat := 4
 
-def init : Store := List.replicate nSlots (Buf.mk' 256)
+def init : Store := List.replicate nSlots (Buf.mk' kInitialSize)
 
 end Tbox.C07
